@@ -138,6 +138,11 @@ def assign_names(p: dict, var_sel: int) -> dict:
 
 
 def _rx_for(v: Any, d: P.Det) -> str:
+    # a double quote ends the regex token unless it is written `\"` (which, as a regex, matches a quote)
+    return _rx_for0(v, d).replace('"', '\\"')
+
+
+def _rx_for0(v: Any, d: P.Det) -> str:
     s = str(v)
     k = d.next(6)
     if k == 0 or not s:
@@ -259,7 +264,30 @@ class Abstractor:
                 self.avail.append((c, v))
         if d.chance(1, 12):
             fields.append({"name": "nosuch", "val": None, "cap": None})
+        if fields and d.chance(1, 4):
+            # the same field listed twice: every listed spec has to hold (and every capture is made)
+            again = d.pick([f for f in fields if f["name"] != "nosuch"] or fields)
+            v = getattr(node, again["name"], None)
+            if not is_node(v) and not isinstance(v, (tuple, frozenset)) and v is not None:
+                second = {"name": again["name"], "val": {"t": "re", "rx": _rx_for(v, d)}, "cap": self.cap(1, 3)}
+            else:
+                second = {"name": again["name"], "val": None, "cap": self.cap(1, 2)}
+            if second["cap"]:
+                self.avail.append((second["cap"], v))
+            fields.insert(d.next(len(fields) + 1), second)
         return {"t": "tree", "classes": self.classes(node), "fields": fields}
+
+
+def _repeats_field(p: Any) -> bool:
+    if isinstance(p, dict):
+        if p.get("t") == "tree":
+            names = [f["name"] for f in p["fields"]]
+            if len(set(names)) < len(names):
+                return True
+        return any(_repeats_field(v) for v in p.values())
+    if isinstance(p, list):
+        return any(_repeats_field(v) for v in p)
+    return False
 
 
 def features(p: Any) -> set[str]:
@@ -329,6 +357,7 @@ def check_case(data: dict, lab: Labels) -> None:
         targets = [src] + [lives[(k + pi) % len(lives)] for k in data["others"]]
         feats = features(p)
         lab.tag_if('@sk="' in text, "regex-on-str-enum-value")
+        lab.tag_if(_repeats_field(p), "field-listed-twice")
         res_for_p = []
         for node in targets:
             exp_ok, exp_caps = P.ref_match(p, node, {}, is_node, isinstance_of)
